@@ -4,6 +4,8 @@
 #
 # Visit https://aboutcode.org and https://github.com/nexB/univers for support and download.
 
+import re
+
 import attr
 import semantic_version
 from packaging import version as packaging_version
@@ -297,6 +299,14 @@ class ArchLinuxVersion(Version):
             return NotImplemented
         return arch.vercmp(self.value, other.value) >= 0
 
+    def __hash__(self):
+        # Versions that compare equal have the same numbers in their epoch and
+        # version. The pkgrel is left out: it is ignored when one side has none.
+        value = self.value
+        epoch, version = value.split(":", 1) if ":" in value else ("0", value)
+        version = version.rsplit("-", 1)[0]
+        return hash(tuple(tuple(int(d) for d in re.findall(r"[0-9]+", s)) for s in (epoch, version)))
+
 
 class DebianVersion(Version):
     @classmethod
@@ -381,6 +391,9 @@ class GentooVersion(Version):
         if not isinstance(other, self.__class__):
             return NotImplemented
         return gentoo.vercmp(self.value, other.value) >= 0
+
+    def __hash__(self):
+        return hash(gentoo.get_hash_key(self.value))
 
 
 class AlpineLinuxVersion(GentooVersion):
